@@ -368,6 +368,8 @@ def run(tier, seed):
     par.pmap(work_history, hist, stats=st, chunk=2)
     from props import zoo
     par.pmap(work_zoo, [n for n in zoo.names(tier) if not n.startswith('c13:')], stats=st, chunk=4)
+    from props import faultinv as _FI
+    par.pmap(_FI.work, _FI.tasks(), extra=(('recs',),), stats=st, chunk=6)
     par.pmap(work_repeats, [(n, k, w) for n in sorted(REPEAT_SETS) for k in (2, 3, 8, 9, 10, 11, 30) for w in ('front', 'back', 'around')], stats=st, chunk=4)
     par.pmap(work_client, [(b, k) for b in bs[::4] for k in ('all', 'even', 'odd', 'clean', 'terrapin-hardened', 'unknowns')], stats=st, chunk=4)
     vcases = []
